@@ -16,13 +16,13 @@ from fsmc.ref import tangent as RT
 PID = "C10"
 RULE = ("states = reachable object graphs of a ForSys under op histories (BFS, de-duplicated on a hash of all instance dictionaries); "
         "non-trivial = at least one frame solved; classes = (effective ops per frame)")
-BOUND = {"quick": "1 frame: all histories to depth 4 over 11 ops; 2 frames: all histories to depth 3 over 17 ops",
+BOUND = {"quick": "1 frame: all histories to depth 3 over 12 ops from 2 start states (fresh; solved with an angle limit and pressures); 2 frames: depth 3 over 16 ops from the fresh object, depth 2 over 18 ops from a solved one",
          "thorough": "1 frame: to depth 6 (or fixpoint); 2 frames: depth 4; 3 frames: depth 3"}
 ASSUMPTIONS = ["what matters for the tensions of frame t: the last successful build of t before the last successful solve of t, and that solve's arguments",
                "what matters for the pressures of frame t: the tensions present when the pressure matrix was last built, and the last solve_pressure",
                "interfaces excluded by an angle limit are only compared through the -1 reported for them",
                "cm=False (centre-of-mass shifting edits the frame data itself)"]
-REQUIRED_TAGS = {"all": ["solved", "pressure_solved", "excluded_some", "resolved_other_options", "two_frames", "velocity", "sysvel"]}
+REQUIRED_TAGS = {"all": ["solved", "pressure_solved", "excluded_some", "resolved_other_options", "two_frames", "velocity", "sysvel", "data_edited"]}
 
 BUILDS = {"bdef": {}, "btau": {"circle_fit_method": "taubinSVD"}, "bang": "ANGLE"}
 SOLVES = {"sdef": {}, "slsq": {"method": "lsq"}, "slin": {"method": "lsq_linear"}, "svel": {"b_matrix": "velocity"}, "sfix": {"method": "fix_stress"},
@@ -63,8 +63,9 @@ def angle_limit_for(at, cm):
 class Histories:
     chunk = 2
 
-    def __init__(self, name, base, cells, nframes, ops, depth):
+    def __init__(self, name, base, cells, nframes, ops, depth, roots=()):
         self.name = name
+        self.roots = list(roots)
         self.base, self.cells, self.nframes = base, cells, nframes
         self.ops = ops
         self.bound = depth
@@ -72,7 +73,8 @@ class Histories:
         self.limit = angle_limit_for(self.at, self.cm)
 
     def initial(self):
-        return [{"ops": []}]
+        # exploration also starts from non-initial states (most history bugs need a solved object to manifest)
+        return [{"ops": []}] + [{"ops": [list(o) for o in r]} for r in self.roots]
 
     def actions(self, d):
         return [list(o) for o in self.ops]
@@ -86,6 +88,12 @@ class Histories:
         if kind == "sysvel":
             return fsutil.call(s.get_system_velocity_per_frame)
         t = op[1]
+        if kind == "shift":
+            # the frame's DATA is edited in place (this is what ForSys(cm=True) does to every frame): all vertices translated
+            for v in s.frames[t].vertices.values():
+                v.x += 0.37
+                v.y -= 0.21
+            return None, None
         if kind in BUILDS:
             kw = BUILDS[kind]
             if kw == "ANGLE":
@@ -138,30 +146,42 @@ class Histories:
         solve_ctx = {}        # t -> (build op at solve time, solve op)
         press_ctx = {}        # t -> (solve_ctx at pbuild time or None)
         psolved = {}          # t -> press_ctx at psolve time
+        f9_dirty = {}         # t -> a solve failed on a matrix mutilated by fix_stress after writing part of its result
+        build_shift = {}      # t -> data version (number of shifts) when the stored force matrix was built
+        shifts = {}           # t -> number of in-place translations of the frame's vertices so far
         tainted = {}          # t -> the stored matrix lost a column through a failed fix_stress (finding F9)
         excs = []
         for op in d["ops"]:
             res, ex = self.apply(s, op)
             excs.append(None if ex is None else type(ex).__name__)
             kind = op[0]
+            if kind == "shift":
+                shifts[op[1]] = shifts.get(op[1], 0) + 1
+                tags.append("data_edited")
+                continue
             if kind == "sysvel":
                 tags.append("sysvel")
                 if ex is None:
                     for t in range(self.nframes):
                         cur_build[t] = ["bsys", t]
+                        build_shift[t] = shifts.get(t, 0)
                         tainted[t] = False
                 continue
             t = op[1]
             if kind in BUILDS and ex is None:
                 cur_build[t] = op
+                build_shift[t] = shifts.get(t, 0)
                 tainted[t] = False
             elif kind in SOLVES:
                 if kind == "sfix" and t in cur_build:
                     tainted[t] = True
+                if tainted.get(t) and kind != "sfix" and ex is not None:
+                    # a solve on the matrix that fix_stress mutilated failed half-way: mesh edges already overwritten (F9)
+                    f9_dirty[t] = True
                 if ex is None:
                     if t in solve_ctx and solve_ctx[t] != (cur_build.get(t), op):
                         tags.append("resolved_other_options")
-                    solve_ctx[t] = (cur_build.get(t), op, bool(tainted.get(t)) and kind != "sfix")
+                    solve_ctx[t] = (cur_build.get(t), op, bool(tainted.get(t)) and kind != "sfix", build_shift.get(t, 0), dict(shifts))
                     if kind == "svel":
                         tags.append("velocity")
             elif kind == "pbuild" and ex is None:
@@ -190,7 +210,7 @@ class Histories:
                         tags.append("excluded_some")
                         continue
                     if abs(rep["be_tension"][beid] - forces[i]) > 1e-9 or any(abs(x - forces[i]) > 1e-9 for x in rep["se_tension"][beid]):
-                        if solve_ctx[t][2]:
+                        if solve_ctx[t][2] or f9_dirty.get(t):
                             known.append({"id": "F9", "frame": t, "ops": d["ops"]})
                         else:
                             viol.append({"what": "i-th reported tension differs from the tension stored on the i-th internal interface / its mesh edges",
@@ -202,7 +222,15 @@ class Histories:
                         break
                 # differential: fresh object, only the operations that matter
                 s2, _ = self.fresh()
-                b_op, s_op, taint = solve_ctx[t]
+                b_op, s_op, taint, bsh, allsh = solve_ctx[t]
+                # data edits up to the build (translations commute); the velocity term of a dynamic solve reads the positions
+                # at solve time, so for velocity solves the data version at solve time is used for all frames
+                for tt in range(self.nframes):
+                    nsh = allsh.get(tt, 0) if (s_op[0] == "svel" or tt != t) else bsh
+                    for _ in range(nsh):
+                        self.apply(s2, ["shift", tt])
+                if s_op[0] == "svel" and allsh.get(t, 0) != bsh:
+                    continue      # matrix built on older positions than the velocities: mixed data versions, nothing is promised
                 for op in ([b_op] if b_op else []) + [s_op]:
                     if op[0] == "bsys":
                         fsutil.call(s2.get_system_velocity_per_frame)
@@ -233,7 +261,12 @@ class Histories:
                 ctx = psolved[t]
                 s2, _ = self.fresh()
                 if ctx is not None:
-                    b_op, s_op, taint = ctx
+                    b_op, s_op, taint, bsh, allsh = ctx
+                    for tt in range(self.nframes):
+                        for _ in range(allsh.get(tt, 0) if tt != t else bsh):
+                            self.apply(s2, ["shift", tt])
+                    if any(o[0] == "shift" for o in d["ops"]):
+                        continue      # pressures after in-place edits mix data versions (curvature snapshot vs live tensions): no verdict
                     for op in ([b_op] if b_op else []) + [s_op]:
                         if op[0] == "bsys":
                             fsutil.call(s2.get_system_velocity_per_frame)
@@ -274,7 +307,7 @@ def first_connected(base, n):
 def ops_for(nframes, builds, solves, sysvel=True):
     ops = []
     for t in range(nframes):
-        ops += [[b, t] for b in builds] + [[s, t] for s in solves] + [["pbuild", t], ["psolve", t]]
+        ops += [[b, t] for b in builds] + [[s, t] for s in solves] + [["pbuild", t], ["psolve", t], ["shift", t]]
     if sysvel:
         ops.append(["sysvel"])
     return ops
@@ -283,8 +316,13 @@ def ops_for(nframes, builds, solves, sysvel=True):
 def build(tier, seed):
     cells = first_connected("v5x5", 7)
     if tier == "quick":
-        return [Histories("one-frame", "v5x5", cells, 1, ops_for(1, ["bdef", "btau", "bang"], ["sdef", "slsq", "slin", "sfix", "sneg"]), 3),
-                Histories("two-frames", "v5x5", cells, 2, ops_for(2, ["bdef", "bang"], ["sdef", "svel", "sfix"]), 3)]
-    return [Histories("one-frame", "v5x5", cells, 1, ops_for(1, ["bdef", "btau", "bang"], ["sdef", "slsq", "slin", "sfix", "sneg"]), 5),
-            Histories("two-frames", "v5x5", cells, 2, ops_for(2, ["bdef", "bang", "btau"], ["sdef", "svel", "sfix", "slin"]), 4),
-            Histories("three-frames", "v5x5", cells, 3, ops_for(3, ["bdef", "bang"], ["sdef", "svel"]), 3)]
+        r1 = [[["bang", 0], ["sdef", 0], ["pbuild", 0], ["psolve", 0]]]
+        r2 = [[["bdef", 0], ["sdef", 0], ["bdef", 1], ["svel", 1]]]
+        return [Histories("one-frame", "v5x5", cells, 1, ops_for(1, ["bdef", "btau", "bang"], ["sdef", "slsq", "slin", "sfix"]), 3, r1),
+                Histories("two-frames", "v5x5", cells, 2, ops_for(2, ["bdef", "bang"], ["sdef", "svel"]), 3),
+                Histories("two-frames-from-solved", "v5x5", cells, 2, ops_for(2, ["bdef", "bang"], ["sdef", "svel", "sfix"]), 2, r2)]
+    r1 = [[["bdef", 0], ["sdef", 0]], [["bang", 0], ["sdef", 0], ["pbuild", 0], ["psolve", 0]]]
+    r2 = [[["bdef", 0], ["sdef", 0], ["bdef", 1], ["svel", 1]]]
+    return [Histories("one-frame", "v5x5", cells, 1, ops_for(1, ["bdef", "btau", "bang"], ["sdef", "slsq", "slin", "sfix", "sneg"]), 5, r1),
+            Histories("two-frames", "v5x5", cells, 2, ops_for(2, ["bdef", "bang", "btau"], ["sdef", "svel", "sfix", "slin"]), 4, r2),
+            Histories("three-frames", "v5x5", cells, 3, ops_for(3, ["bdef", "bang"], ["sdef", "svel"]), 3, r2)]
